@@ -321,12 +321,12 @@ harnesses! {
     c06_fmt_specs: [1, 0] [1, 1] [1, 2] [1, 3] [1, 4];
     c19_map: [0, 0] [0, 1] [0, 2] [1, 0] [1, 1] [1, 2] [2, 0] [2, 1] [2, 2] [1, 3] [2, 3];
     c19_set: [0, 0] [0, 1] [0, 2] [1, 0] [1, 1] [1, 2] [2, 0] [2, 1] [2, 2] [1, 3] [2, 3];
-    c19_map_iters: [1, 0] [1, 1] [1, 2] [1, 3] [1, 4] [1, 5] [1, 6] [1, 7] [1, 8] [2, 0] [2, 1] [2, 2] [2, 3] [2, 4] [2, 5] [2, 6] [2, 7] [2, 8];
+    c19_map_iters: [1, 0] [1, 1] [1, 2] [1, 3] [1, 4] [1, 5] [1, 6] [1, 7] [1, 8] [2, 5];
     c19_set_iters: [1, 1, 0] [1, 1, 1] [1, 1, 2];
     @deep
     c19_nested: [2, 1] [2, 2];
     c19_map: [3, 0] [3, 1] [3, 2] [3, 3];
     c19_set: [3, 0] [3, 1] [3, 2] [3, 3];
-    c19_map_iters: [3, 0] [3, 1] [3, 2] [3, 3] [3, 4] [3, 5] [3, 6] [3, 7] [3, 8];
+    c19_map_iters: [2, 0] [2, 1] [2, 2] [2, 3] [2, 4] [2, 6] [2, 7] [2, 8] [3, 0] [3, 1] [3, 2] [3, 3] [3, 4] [3, 5] [3, 6] [3, 7] [3, 8];
     c19_set_iters: [1, 1, 3] [2, 1, 0] [2, 1, 1] [2, 1, 2] [2, 1, 3] [2, 2, 0] [2, 2, 1] [2, 2, 2] [2, 2, 3];
 }
